@@ -1,4 +1,4 @@
-(* HistoryCont.v — consequences of the piecewise-linear specification: continuity at the knots and no overshoot. *)
+(* HistoryCont.v — consequences of the piecewise-linear specification: continuity at the knots, no overshoot, and finality of the past. *)
 From Coq Require Import List ZArith QArith Qcanon Lia Bool Arith.
 From PV Require Import History HistoryProofs.
 Import ListNotations.
@@ -85,4 +85,48 @@ Proof.
   apply lerp_component_between; try assumption.
   - apply incr_nth_lt; [exact Hinc|lia|lia].
   - apply Qclt_le_weak. exact Hhi.
+Qed.
+
+(* the past is final: records appended later never change the answer to a query that lies before the last record
+   present now (what a DDE solver relies on when it reads the history while extending it). No monotonicity of the
+   times and no shape condition is needed. *)
+Lemma interp_from_app_stable : forall rest ext ta ya t, ta <= t -> t < last (ta :: times rest) 0 ->
+  interp_from ta ya (rest ++ ext) t = interp_from ta ya rest t.
+Proof.
+  induction rest as [|[tb yb] rest IH]; intros ext ta ya t Hle Hlt.
+  - cbn in Hlt. exfalso. exact (Qclt_not_le _ _ Hlt Hle).
+  - cbn [app interp_from]. destruct (Qcltb t tb) eqn:E; [reflexivity|].
+    apply Qcltb_false in E. apply IH; [exact E|].
+    change (times ((tb, yb) :: rest)) with (tb :: times rest) in Hlt. exact Hlt.
+Qed.
+
+Theorem interp_past_stable rs ext t : rs <> [] -> t < last (times rs) 0 -> interp (rs ++ ext) t = interp rs t.
+Proof.
+  destruct rs as [|[t0 y0] rest]; intros Hne Hlt; [congruence|].
+  cbn [app interp]. destruct (Qcleb t t0) eqn:E; [reflexivity|].
+  apply Qcleb_false in E. apply interp_from_app_stable; [apply Qclt_le_weak; exact E|].
+  change (times ((t0, y0) :: rest)) with (t0 :: times rest) in Hlt. exact Hlt.
+Qed.
+
+(* the same on whole scripts of the specification: after any further operations, a query before the last record of now is
+   answered as it would have been answered now *)
+Lemma arun_recs_extend : forall ops a, exists ext, recs (fst (arun a ops)) = recs a ++ ext.
+Proof.
+  induction ops as [|o ops IH]; intro a.
+  - exists []. cbn. rewrite app_nil_r. reflexivity.
+  - cbn [arun]. destruct (astep a o) as [a1 r] eqn:Es. destruct (arun a1 ops) as [a2 rs2] eqn:Er. cbn [fst].
+    destruct (IH a1) as [ext Hext]. rewrite Er in Hext. cbn [fst] in Hext.
+    assert (H1 : exists e1, recs a1 = recs a ++ e1).
+    { unfold astep in Es. destruct o as [t y j|t].
+      - destruct (bound a) as [b|].
+        + destruct (b <=? length (recs a))%nat; inversion Es; subst; [exists []; rewrite app_nil_r; reflexivity | eexists; reflexivity].
+        + inversion Es; subst. eexists; reflexivity.
+      - inversion Es; subst. exists []. rewrite app_nil_r. reflexivity. }
+    destruct H1 as [e1 H1]. exists (e1 ++ ext). rewrite Hext, H1, app_assoc. reflexivity.
+Qed.
+
+Theorem past_is_final a ops t : recs a <> [] -> t < last (times (recs a)) 0 ->
+  interp (recs (fst (arun a ops))) t = interp (recs a) t.
+Proof.
+  intros Hne Hlt. destruct (arun_recs_extend ops a) as [ext H]. rewrite H. apply interp_past_stable; assumption.
 Qed.
